@@ -25,7 +25,10 @@ MOD = 'checks.c17_copy'
 KINDS = ['new', 'new2', 'mod', 'mod2', 'big', 'meta', 'empty', 'del', 'undo',
          'undo2', 'stale', 'restore', 'pack', 'reopen']
 DAMAGE = (('cut', 0, None), ('zero', 1, 0), ('zero', 8, 0), ('zero', 64, 0),
-          ('ff', 8, 0xff))
+          ('ff', 8, 0xff),
+          # a byte that reads as the status of a transaction still being
+          # written (the checkpoint flag)
+          ('c', 1, 0x63))
 FIXED = [
     [('new2', 1, 2), ('mod', 1), ('undo', 0), ('mod2', 1, 2)],
     [('new', 1), ('meta', 1, 1), ('del', 1), ('new', 2), ('empty',)],
